@@ -45,5 +45,5 @@ with open(V + '/seeded/README.md', 'w') as f:
     for r in rows:
         f.write("| %s | %s | %s | %s | %s |\n" % r)
     n = len([r for r in rows if not r[2].startswith('NOT')])
-    f.write("\n%d of %d seeded changes are caught (round 1: m1, m2; round 2: m3-m5, written after the first round's checks existed and told to avoid its functions). The ones that are not break a property that is declared not applicable (C19).\n" % (n, len(rows)))
+    f.write("\n%d of %d seeded changes are caught by the check of their own property (rounds: m1-m2, m3-m5, m6-m8, ...; each later round was written after the earlier rounds' checks existed and told to avoid their functions). Not caught: the changes that break C19 (declared not applicable) and the ones whose row says why.\n" % (n, len(rows)))
 print(len(rows), 'seeds')
